@@ -154,6 +154,10 @@ sig_source_stop_filter(const struct video_source_s* source)
     // the filter thread.
     struct video_s* self = containerof(source, struct video_s, source);
     self->filter.is_stopping = 1;
+    // Let the filter flush what it still holds into the sink's queue before the
+    // sink is told to stop. Otherwise the sink may stop the storage device first
+    // and the filter's last frames stay in the queue for the next acquisition.
+    thread_join(&self->filter.thread);
 }
 
 static void
